@@ -143,23 +143,26 @@ async def extra(dis):
                     pulls.append(x)
                     yield x
 
-            a, b = ai.tee(source(), 2)
             got = ([], [])
-            done = [False, False]
-            its = (a.__aiter__(), b.__aiter__())
-            for who in pattern:
-                if done[who]:
-                    continue
-                try:
-                    got[who].append(await its[who].__anext__())
-                except StopAsyncIteration:
-                    done[who] = True
-            for who in (0, 1):
-                while not done[who]:
+            try:
+                a, b = ai.tee(source(), 2)
+                done = [False, False]
+                its = (a.__aiter__(), b.__aiter__())
+                for who in pattern:
+                    if done[who] or len(got[who]) > n + 1:
+                        continue
                     try:
                         got[who].append(await its[who].__anext__())
                     except StopAsyncIteration:
                         done[who] = True
+                for who in (0, 1):
+                    while not done[who] and len(got[who]) <= n + 1:  # an iterator that does not end is a disagreement, not a hang
+                        try:
+                            got[who].append(await its[who].__anext__())
+                        except StopAsyncIteration:
+                            done[who] = True
+            except Exception as e:  # noqa: BLE001 -- an exception out of tee on a valid input is a disagreement
+                got = (["raised " + type(e).__name__], got[1])
             if got[0] != xs or got[1] != xs or pulls != xs:
                 dis.append(("tee", pattern, xs, "async", (got, pulls), (xs, xs)))
                 return
@@ -173,7 +176,14 @@ def main_cli(argv):
     if not os.path.abspath(_anyio.__file__).startswith(os.path.abspath(root)):
         print(f"reproduced=False reason=anyio was not imported from {root}")
         return 0
-    n, dis = _anyio.run(main)
+    try:
+        n, dis = _anyio.run(main)
+    except BaseException as e:  # noqa: BLE001 -- the comparison itself could not be carried out: no verdict from this run
+        import traceback
+
+        print("".join(traceback.format_exception(e))[-1500:])
+        print("reproduced=False reason=the comparison harness was aborted by an exception from the code under test (no verdict)")
+        return 0
     seen = set()
     shown = []
     for d in dis:
